@@ -134,6 +134,12 @@ EvalClauses(e) ==
    \* use_references omitted = True; a second call returns the same number
    \cup Chk(\A t \in 1..2 : Equal2(e.Hdef[t], e.H2[t][1]), "DefaultIsOn")
    \cup Chk(\A t \in 1..2 : Equal2(e.Hrep[t], e.H2[t][1]), "Repeatable")
+   \* T given per species ('<species name>_kwargs': {'T': ...}, the documented keyword routing), alone and
+   \* together with a different global T: every part of the species, the adjustment included, follows
+   \* the species' own T - the same number as with T passed plainly
+   \cup Chk(\A t \in 1..2 : /\ Equal2(e.Hks[t][1], e.H2[t][1]) /\ Equal2(e.Hks[t][2], e.H2[t][1])
+                            /\ Equal2(e.Gks[t][1], e.G2[t][1]) /\ Equal2(e.Gks[t][2], e.G2[t][1]),
+            "SpeciesKwargsRouting")
    \* verbose=True: slot 6 of [trans, vib, rot, elec, nucl, references, misc...] is the adjustment,
    \* which is what References.get_HoRT(descriptors, T) returns when called directly
    \cup Chk(\A t \in 1..2 : Equal2(e.ver[t], e.Hdir2[t]), "VerboseSlot")
